@@ -159,6 +159,7 @@ type Interp struct {
 	shared   map[*Stmt]*sharedActions
 
 	sawFalsified bool
+	drawFrame    *frame // the frame whose Draw call is in progress (signals raised by predicates)
 }
 
 type harnessAbort struct{ why string }
@@ -330,7 +331,12 @@ func (x *Interp) execStmt(fr *frame, st *Stmt) {
 	case "draw":
 		g := fr.sc.subs[st.Gen]
 		x.ev(Event{K: "dbeg", Scope: fr.sc.id})
-		v := g.Draw(t, st.Label)
+		v := func() any {
+			prev := x.drawFrame
+			x.drawFrame = fr
+			defer func() { x.drawFrame = prev }()
+			return g.Draw(t, st.Label)
+		}()
 		x.ev(Event{K: "dret", Scope: fr.sc.id})
 		x.recordDraw(fr.sc, st.Label, v, st.Gen)
 	case "if":
@@ -507,6 +513,15 @@ func (x *Interp) signal(fr *frame, st *Stmt) {
 	}
 	x.ev(Event{K: "sig", Scope: fr.sc.id, Name: st.Kind, Class: class, Site: site, Where: fr.where, Msg: msg})
 	sites[st.Site%numSites](fr.sc.t, st.Kind, base, st.Site)
+}
+
+// predSignal raises the signal of a "sig" predicate on the T whose Draw call is in flight.
+func (x *Interp) predSignal(s *GenSpec) {
+	fr := x.drawFrame
+	if fr == nil || x.cur == nil || x.cur.Done {
+		return
+	}
+	x.signal(&frame{sc: fr.sc, where: "pred"}, &Stmt{Op: "sig", Kind: s.SigKind, Site: s.SigSite})
 }
 
 // harnessStack renders the harness frames of the current call stack (function:line), innermost first, up to
